@@ -439,7 +439,10 @@ OwnObl(st, r, t) == CHOOSE o \in OCand(st, r, t) : \A p \in OCand(st, r, t) : o.
 OnMulticastReply(st, e) ==
   LET an == {NsecCanon(st, r) : r \in RidsOf(e.an)}
       t == e.t
-  IN IF Bad(\E r \in an : OCand(st, r, t) = {}, "C12_NoEarlyOrUnsolicited") THEN Fail(st, "C12_NoEarlyOrUnsolicited")
+  IN \* C03 (what is answered): a record nobody is owed -- no question of the last seconds asks for it, or the querier listed it
+     \* as a known answer -- is not multicast.  (Whether an owed answer comes at the right time is C12's matter.)
+     IF Bad(\E r \in an : ~\E o \in st.obl : o.r = r /\ o.qt <= t, "C03_UnexpectedAnswer") THEN Fail(st, "C03_UnexpectedAnswer")
+     ELSE IF Bad(\E r \in an : OCand(st, r, t) = {}, "C12_NoEarlyOrUnsolicited") THEN Fail(st, "C12_NoEarlyOrUnsolicited")
      ELSE IF Bad(\E r \in an : OCand(st, r, t) # {} /\ \A o \in OCand(st, r, t) : t < o.s2, "C12_OneSecondAfterAnySighting")
           THEN Fail(st, "C12_OneSecondAfterAnySighting")
      ELSE IF ContentClause(st, e, an, {}) # "" THEN Fail(st, ContentClause(st, e, an, {}))
